@@ -616,6 +616,20 @@ func cloneTerminal(e *Expr) *Expr {
 // statePredBait draws a predicate directly under ? (no sequence in between) whose operand
 // changes the state and then matches or fails: ( !( #{..} t ) )?  ( &( #{..} t ) )?
 func (c *gen) statePredBait() *Expr {
+	if c.cfg.Profile != "leftrec" && c.chance(25, "dedentbait") {
+		// (not in left-recursive grammars: a left-recursive rule reached again at an offset replays
+		// its value, and this value depends on when it was computed)
+		// ( &{k1 < n} #{incr k1} )* : a repetition whose body never consumes and is not the same
+		// every time - it goes round until the predicate on the store says no (the idiom behind
+		// implied closing tokens and dedents)
+		body := &Expr{K: KSeq, Sub: []*Expr{
+			{K: KAndCode, ID: c.id(), Lim: c.intn(1, 4, "dedentlim")},
+			{K: KState, ID: c.id(), Ops: []StateOp{{Op: "incr", Key: "k1"}}}}}
+		if c.chance(30, "dedentplus") {
+			return &Expr{K: KPlus, Sub: []*Expr{body}}
+		}
+		return &Expr{K: KStar, Sub: []*Expr{body}}
+	}
 	operand := &Expr{K: KSeq, Sub: []*Expr{c.stateBlock(), c.consuming()}}
 	if c.chance(30, "statepredtail") {
 		operand.Sub = append(operand.Sub, c.stateBlock())
